@@ -152,13 +152,13 @@ class ReconcileMonitor(Monitor):
         if final and self.restarts:
             for a in run.agents:
                 for market in fw.markets:
-                    sels = set(o.selection_id for o in market.blotter._strategy_orders.get(a, ()))
-                    for sel in sels:
+                    sels = set((o.selection_id, o.handicap) for o in market.blotter._strategy_orders.get(a, ()))
+                    for sel, hc in sels:
                         exp_lose = 0.0
                         exp_win = 0.0
                         for bid in ex.order:
                             b = ex.bets[bid]
-                            if hash_of(b["ref"]) != a.name_hash or b["market_id"] != market.market_id or b["selection_id"] != sel or b["order_type"] != "LIMIT":
+                            if hash_of(b["ref"]) != a.name_hash or b["market_id"] != market.market_id or b["selection_id"] != sel or (b.get("handicap") or 0) != hc or b["order_type"] != "LIMIT":
                                 continue
                             if bid not in by_bet:
                                 continue
@@ -166,10 +166,10 @@ class ReconcileMonitor(Monitor):
                                 exp_lose += b["matched"] + (0 if b["complete"] else b["remaining"])
                             else:
                                 exp_win += (b["avp"] - 1) * b["matched"] + (0 if b["complete"] else (b["price"] - 1) * b["remaining"])
-                        e = market.blotter.get_exposures(a, (market.market_id, sel, 0))
+                        e = market.blotter.get_exposures(a, (market.market_id, sel, hc))
                         got_lose = -(e["matched_profit_if_lose"] if "matched_profit_if_lose" in e else 0)
                         # only a coarse comparison: unmatched worst case
-                        if abs(-e["worst_potential_unmatched_profit_if_lose"] - sum(ex.bets[x]["remaining"] for x in ex.order if x in by_bet and hash_of(ex.bets[x]["ref"]) == a.name_hash and ex.bets[x]["market_id"] == market.market_id and ex.bets[x]["selection_id"] == sel and ex.bets[x]["side"] == "BACK" and not ex.bets[x]["complete"] and ex.bets[x]["order_type"] == "LIMIT")) > 0.011:
+                        if abs(-e["worst_potential_unmatched_profit_if_lose"] - sum(ex.bets[x]["remaining"] for x in ex.order if x in by_bet and hash_of(ex.bets[x]["ref"]) == a.name_hash and ex.bets[x]["market_id"] == market.market_id and ex.bets[x]["selection_id"] == sel and (ex.bets[x].get("handicap") or 0) == hc and ex.bets[x]["side"] == "BACK" and not ex.bets[x]["complete"] and ex.bets[x]["order_type"] == "LIMIT")) > 0.011:
                             self.violate(self.P, "C11.adopt", "exposure-of-restarted-instance-differs", strategy=a.name, selection=sel, reported=e)
         pr["c11.final_checks"] += 1
 
